@@ -19,7 +19,8 @@ BigOK(ev) == /\ ev.ret = ev.n /\ ev.outlen = 2 * ev.n + ((ev.n + 15) \div 16)   
              /\ ev.shape = 1 /\ ev.back \in {1, 2}        \* 2: parse-back not run for this length (driver samples it; it is quadratic)
 TraceInit == ti = 1
 TraceNext == /\ ti <= Len(T) /\ ti' = ti + 1
-             /\ LET ev == T[ti] IN CASE ev.e = "Parse" -> ParseOK(ev) [] ev.e = "Dump" -> DumpOK(ev) [] ev.e = "Two" -> TwoOK(ev) [] ev.e = "BigDump" -> BigOK(ev) [] OTHER -> FALSE
+             /\ LET ev == T[ti] IN CASE ev.e = "Parse" -> ParseOK(ev) [] ev.e = "Dump" -> DumpOK(ev) [] ev.e = "Two" -> TwoOK(ev) [] ev.e = "BigDump" -> BigOK(ev)
+                                     [] ev.e = "ManyLines" -> ev.r = <<222, 173, -1, -1>>      \* a million data-less lines, then "0010: de ad": de, ad, end, end [] OTHER -> FALSE
 TraceSpec == TraceInit /\ [][TraceNext]_ti
 TraceAccepted ==
   LET d == TLCGet("stats").diameter IN
